@@ -220,7 +220,7 @@ def translate_driver(repo, gendir):
     if len(cls) != 1:
         raise Unsupported("translate:mpf/devices/driver.py:Driver class not found")
     fns = {n.name: n for n in cls[0].body if isinstance(n, ast.FunctionDef)}
-    out = ["(* GENERATED by harness/props/c08_translate.py from mpf/devices/driver.py on every run. Do not edit. *)",
+    out = ["(* GENERATED by harness/props/c08.py from mpf/devices/driver.py on every run. Do not edit. *)",
            "From Common Require Import Prelude.", "From Coq Require Import QArith.", "From C08 Require Import Py.",
            "Open Scope Z_scope.", ""]
     for f in VERIFY_FUNCS:
@@ -237,13 +237,14 @@ ACT = ("pulse", "enable", "timed_enable")
 
 
 def scan_sites(repo):
-    """Every access to an attribute named hw_driver in non-test mpf code, classified by what is done with it.
+    """Where non-test mpf code touches the platform driver interface.
 
-    returns list of (file, class, function, kind) with kind in
-      call:<method>    <x>.hw_driver.<method>(...)
-      attr:<name>      <x>.hw_driver.<name> not called (number, config ...)
-      store            assignment target / annotation
-      pass             the driver object itself is used as a value (aliased, passed on, compared)
+    returns sorted list of (file, class, function, kind), kind in
+      call:<method>      <x>.hw_driver.<method>(...) for method in pulse / enable / timed_enable
+      escape             the hw driver object (or one of its bound actuation methods) is used as a value: aliased,
+                         passed on, stored elsewhere  (only outside mpf/platforms: platform code handles its own
+                         driver objects and receives DriverSettings that were verified above the interface)
+      configure_driver   <x>.configure_driver(...) outside mpf/platforms: where hw driver objects are created
     """
     sites = []
     root = os.path.join(repo, "mpf")
@@ -254,6 +255,7 @@ def scan_sites(repo):
                 continue
             p = os.path.join(dp, f)
             rel = os.path.relpath(p, repo)
+            in_platforms = rel.startswith(os.path.join("mpf", "platforms") + os.sep)
             try:
                 tree = ast.parse(open(p, encoding="utf-8").read())
             except SyntaxError as e:
@@ -262,9 +264,8 @@ def scan_sites(repo):
             for node in ast.walk(tree):
                 for ch in ast.iter_child_nodes(node):
                     parents[ch] = node
-            for node in ast.walk(tree):
-                if not (isinstance(node, ast.Attribute) and node.attr == "hw_driver"):
-                    continue
+
+            def where(node):
                 cls, fun = "", ""
                 q = node
                 while q in parents:
@@ -273,20 +274,28 @@ def scan_sites(repo):
                         fun = q.name
                     if isinstance(q, ast.ClassDef) and not cls:
                         cls = q.name
+                return cls, fun
+
+            for node in ast.walk(tree):
+                if isinstance(node, ast.Call) and isinstance(node.func, ast.Attribute) and \
+                        node.func.attr == "configure_driver" and not in_platforms:
+                    sites.append((rel,) + where(node) + ("configure_driver",))
+                if not (isinstance(node, ast.Attribute) and node.attr == "hw_driver"):
+                    continue
                 par = parents.get(node)
+                kind = None
                 if isinstance(node.ctx, (ast.Store, ast.Del)):
-                    kind = "store"
+                    kind = None
                 elif isinstance(par, ast.Attribute) and par.value is node:
                     gp = parents.get(par)
-                    if isinstance(gp, ast.Call) and gp.func is par:
-                        kind = "call:" + par.attr
-                    else:
-                        kind = "attr:" + par.attr
+                    if par.attr in ACT:
+                        kind = "call:" + par.attr if (isinstance(gp, ast.Call) and gp.func is par) else "escape"
                 elif isinstance(par, ast.Compare) and all(isinstance(o, (ast.Is, ast.IsNot)) for o in par.ops):
-                    kind = "attr:is_none_test"
-                else:
-                    kind = "pass"
-                sites.append((rel, cls, fun, kind))
+                    kind = None
+                elif not in_platforms:
+                    kind = "escape"
+                if kind:
+                    sites.append((rel,) + where(node) + (kind,))
     return sorted(set(sites))
 
 
@@ -296,7 +305,7 @@ def coq_string(s):
 
 def translate_sites(repo, gendir):
     sites = scan_sites(repo)
-    lines = ["(* GENERATED by harness/props/c08_translate.py: every access to `.hw_driver` in non-test mpf code. *)",
+    lines = ["(* GENERATED by harness/props/c08.py: every access to `.hw_driver` in non-test mpf code. *)",
              "From Coq Require Import String List.", "Import ListNotations.", "Open Scope string_scope.", "",
              "(* (file, class, function, kind) *)",
              "Definition sites : list (string * string * string * string) := ["]
